@@ -850,6 +850,25 @@ orc_compiler_append_insn (OrcCompiler *compiler)
   return insn;
 }
 
+/* TRUE if temporary @var was produced by the load instruction @load_opcode
+ * with the same x2/x4 replication as @flags */
+static int
+orc_compiler_is_param_load (OrcCompiler *compiler, int var,
+    OrcStaticOpcode *load_opcode, unsigned int flags)
+{
+  const unsigned int mask = ORC_INSTRUCTION_FLAG_X2 | ORC_INSTRUCTION_FLAG_X4;
+  int k;
+
+  for (k = 0; k < compiler->n_insns; k++) {
+    OrcInstruction *load = compiler->insns + k;
+
+    if ((load->flags & ORC_INSN_FLAG_ADDED) && load->dest_args[0] == var) {
+      return load->opcode == load_opcode && (load->flags & mask) == (flags & mask);
+    }
+  }
+  return FALSE;
+}
+
 static void
 orc_compiler_rewrite_insns (OrcCompiler *compiler)
 {
@@ -911,6 +930,11 @@ orc_compiler_rewrite_insns (OrcCompiler *compiler)
             if (!compiler->vars[l].has_parameter) continue;
             if (compiler->vars[l].parameter != insn.src_args[i]) continue;
             if (compiler->vars[l].size != opcode->src_size[i] * multiplier) continue;
+            /* equal total size is not enough: "x2 loadpb" and "loadpw" both
+             * produce 2 bytes but not the same value */
+            if (!orc_compiler_is_param_load (compiler, l,
+                  get_loadp_opcode_for_size (opcode->src_size[i]),
+                  insn.flags)) continue;
             loaded = l;
             break;
           }
